@@ -30,6 +30,10 @@ def _record_chunk(job):
             req = tracer_rec.gen_long(random.Random(sd * 13 + k))
             reqs.append(req)
             ev.append(tracer_rec.record(req))
+        if (k // per) % 4 == 2:
+            req = tracer_rec.gen_far(random.Random(sd * 19 + k))
+            reqs.append(req)
+            ev.append(tracer_rec.record(req))
     return ev, reqs
 
 
